@@ -63,14 +63,14 @@ def run(ctx):
     # binding self-test: a corrupted record must be rejected
     kind = ["call", "gate", "touched"][ctx.seed % 3]
     cbase = os.path.join(ctx.scratch, "c23corrupt")
-    n0, v0 = len(ctx.failures), ctx.validated
+    n0, v0, e0, t0 = len(ctx.failures), ctx.validated, ctx.evaluations, ctx.nontrivial
     res = ctx.drive(ct.PKG, "TestC23", env={"VERIF_TRACE_OUT": cbase, "VERIF_CORRUPT": kind}, label="C23/selftest", timeout=900)
     if res is not None:
         ct.validate(ctx, "TraceApiGate", (res.get("coverage") or {}).get("trace_files") or [], cbase + ".cases",
                     "TestC23", {}, "C23/selftest", _match, parallel=1, timeout=600)
         rejected = len(ctx.failures) > n0
         del ctx.failures[n0:]
-        ctx.validated = v0
+        ctx.validated, ctx.evaluations, ctx.nontrivial = v0, e0, t0
         if not rejected:
             ctx.inconclusive.append("binding self-test: TLC accepted a trace with a corrupted record (%s)" % kind)
         else:
